@@ -158,7 +158,13 @@ func (s *Server) refreshConfiguration(ctx context.Context) {
 	s.setSettings(settings)
 }
 
-func (s *Server) DidChangeConfiguration(_ context.Context, _ *protocol.DidChangeConfigurationParams) error {
+func (s *Server) DidChangeConfiguration(_ context.Context, params *protocol.DidChangeConfigurationParams) error {
+	// a client that cannot be asked (no workspace/configuration support) pushes
+	// its settings with the notification: they are all there is
+	if !s.supportsConfiguration && params != nil && params.Settings != nil {
+		s.setSettings(parseSettingsFromRaw(s.getSettings(), params.Settings))
+		return nil
+	}
 	go s.refreshConfiguration(context.Background())
 	return nil
 }
